@@ -17,17 +17,37 @@ def _envs(extra):
     return _ENVS
 
 
+class _OnDemand(dict):
+    """An environment that serves its values on demand: as a dict it is EMPTY (falsy, len 0,
+    nothing to iterate), every look-up goes through __missing__ (like a defaultdict whose factory
+    knows the values).  The kind of mapping object is an input dimension of its own."""
+
+    def __init__(self, values):
+        super().__init__()
+        self._values = values
+
+    def __missing__(self, key):
+        return self._values[key]
+
+    def __contains__(self, key):
+        return key in self._values
+
+
 def drive_case(case, extra):
     from pymbolic.mapper.evaluator import (CachedEvaluationMapper, EvaluationMapper,
                                           evaluate, evaluate_kw)
     expr = ser.from_json(case["e"])
     res = []
     for env in _envs(extra):
+        lazy = _OnDemand(env)       # the same environment as a mapping that is empty to len()/bool()
         vs = [
             ser.call_to_json(lambda: EvaluationMapper(env)(expr)),
             ser.call_to_json(lambda: CachedEvaluationMapper(env)(expr)),
             ser.call_to_json(lambda: evaluate(expr, env)),
             ser.call_to_json(lambda: evaluate_kw(expr, **env)),
+            ser.call_to_json(lambda: EvaluationMapper(lazy)(expr)),
+            ser.call_to_json(lambda: CachedEvaluationMapper(lazy)(expr)),
+            ser.call_to_json(lambda: evaluate(expr, lazy)),
         ]
         if all(v == vs[0] for v in vs[1:]):
             vs = vs[:1]
@@ -123,8 +143,11 @@ def signature(tree, v, fam=None):
     pv = v.get("pv", [])
     # plain evaluator right, every memoising entry point raises TypeError on a tree
     # that contains a (mutable, unhashable) list
-    if (len(pv) == 4 and pv[0] in ("OK", "SKIP") and "List" in kinds_in(tree)
-            and all(x != "OK" for x in pv[1:])):
+    # (variants: plain, cached, evaluate, evaluate_kw, then plain / cached / evaluate on the
+    # on-demand environment - indices 0 and 4 are the non-memoising ones)
+    if (len(pv) == 7 and pv[0] in ("OK", "SKIP") and pv[4] in ("OK", "SKIP")
+            and "List" in kinds_in(tree)
+            and all(pv[i] != "OK" for i in (1, 2, 3, 5, 6))):
         return {"clause": "cached-evaluators-reject", "contains": "List"}
     # a common subexpression over a list: the wrapper (hashed through its child) cannot be a
     # key of the per-instance CSE cache either, so even the plain evaluator raises TypeError
@@ -190,7 +213,7 @@ def run(tier, seed, out):
         c["id"] = f"a{i}"
     kit.log(f"C02: {len(hcases)} histories on one mapper, {len(acases)} arrays")
     recs = kit.drive("harness.c02", "drive_case", cases, {"envs": envs[0]})
-    out.evaluations += sum(len(vs) if len(vs) > 1 else 4 for r in recs for vs in r["r"])
+    out.evaluations += sum(len(vs) if len(vs) > 1 else 7 for r in recs for vs in r["r"])
     hrecs = [r for rs in kit.drive("harness.c02", "drive_hist", hcases, {"envs": envs[0], "pool": pool})
              for r in rs]
     arecs = kit.drive("harness.c02", "drive_arr", acases, {"envs": envs[0]})
@@ -226,7 +249,7 @@ def run(tier, seed, out):
         out.note_case(r["e"], nontrivial=r["e"]["t"] not in ("Var", "Const"))
     out.samples = [{"tree": r["e"], "recorded_per_env": r["r"]} for r in recs[:: max(1, len(recs) // 3)][:3]]
     out.rule = ("TLC enumerates root kind x typed holes (any/leaf/cond/fn pools, see C02_Gen.tla); "
-                "a case is one tree judged in 6 environments for 4 evaluator entry points; "
+                "a case is one tree judged in 6 environments for 4 evaluator entry points (three of them also on an on-demand mapping as environment); "
                 "non-trivial = root is a composite node; distinct by canonical JSON digest")
     out.exhaustive = True
     out.assumptions += ["CPython semantics as transcribed in PyNum.tla (sanity laws checked by TLC)",
